@@ -55,6 +55,10 @@ def shards(tier, seed):
         for k in range(5):
             out.append({'kind': 'all3', 'lat': lname, 'M': M.tolist(), 'k': k})
         out.append({'kind': 'sweep', 'lat': lname, 'M': M.tolist()})
+    # sizes around 2^18 coordinates (a natural block size for FFT work)
+    out.append({'kind': 'large', 'N': 3, 'T': 30000})
+    if tier == 'thorough':
+        out.append({'kind': 'large', 'N': 40, 'T': 2300})
     return out
 
 
@@ -99,10 +103,13 @@ def evaluate(steps, M, N, dim, dt=2e-15):
         own_d = np.linalg.norm(r - r[0][None], axis=-1).T
         if dist.shape != own_d.shape or not np.allclose(dist, own_d, rtol=1e-9, atol=1e-9):
             viols.append(('distance-differs-from-cartesian-length', f'got={np.round(dist, 6).tolist()} own={np.round(own_d, 6).tolist()}'))
-        D = float(traj.metrics().tracer_diffusivity(dimensions=dim))
-        own_D = np.mean(own_d[:, -1] ** 2) * ANG2 / (2 * dim * T * dt)
-        if abs(D - own_D) > 1e-9 * max(abs(own_D), ANG2 / (T * dt) * 1e-3):
-            viols.append(('tracer-diffusivity-differs-from-definition', f'got={D} own={own_D} dim={dim} N={N} T={T}'))
+        mobj = traj.metrics()  # ONE metrics object asked for every dimension in turn
+        for dm in (dim, 1 + dim % 3, 1 + (dim + 1) % 3):
+            D = float(mobj.tracer_diffusivity(dimensions=dm))
+            own_D = np.mean(own_d[:, -1] ** 2) * ANG2 / (2 * dm * T * dt)
+            if abs(D - own_D) > 1e-9 * max(abs(own_D), ANG2 / (T * dt) * 1e-3):
+                viols.append(('tracer-diffusivity-differs-from-definition', f'got={D} own={own_D} dim={dm} (asked after {dim}) N={N} T={T}'))
+                break
     except Exception as e:  # noqa: BLE001
         viols.append((f'diffusivity-raise-{type(e).__name__}', str(e)))
     # start from a non-initial object too: query the first k frames, extend in place with the rest, and ask
@@ -133,7 +140,7 @@ def evaluate(steps, M, N, dim, dt=2e-15):
 
 def run_shard(shard) -> Result:
     res = Result()
-    M = np.array(shard['M'])
+    M = np.array(shard['M']) if 'M' in shard else None
 
     def rec(steps, N, dim):
         viols, key = evaluate(steps, M, N, dim)
@@ -142,6 +149,34 @@ def run_shard(shard) -> Result:
         for kind, detail in viols:
             res.violation(kind, {'steps': np.asarray(steps).tolist(), 'M': M.tolist(), 'N': N, 'dim': dim}, detail)
 
+    if shard['kind'] == 'large':
+        N, T = shard['N'], shard['T']
+        M = geom_tric()
+        t = np.arange(T - 1)[:, None, None]
+        a = np.arange(N)[None, :, None]
+        c = np.arange(3)[None, None, :]
+        steps = 0.3 * np.sin(0.37 * t + 1.3 * a + 2.1 * c) + 0.05 * ((t + a) % 3 - 1)
+        x0 = np.tile(np.array([[0.05, 0.95, 0.5]]), (N, 1)) + 0.01 * np.arange(N)[:, None]
+        un = np.concatenate([x0[None], x0[None] + np.cumsum(steps, axis=0)], axis=0)
+        w = np.mod(un, 1)
+        w[w == 1] = 0
+        traj = concretise.make_trajectory(w, ['Li'] * N, M, time_step=2e-15)
+        case = {'large': [N, T]}
+        try:
+            msd = np.asarray(traj.mean_squared_displacement())
+            r = un @ M
+            for lag in (0, 1, 2, 17, T // 2, T - 2, T - 1):
+                d = r[lag:] - r[: T - lag]
+                own = np.mean(np.sum(d * d, axis=-1), axis=0)
+                res.evals += N
+                if not np.allclose(msd[:, lag], own, rtol=1e-7, atol=1e-6):
+                    res.violation('msd-differs-from-definition', case, f'large trajectory N={N} T={T} lag={lag}: got {msd[:, lag].tolist()} own {own.tolist()}')
+                    break
+            res.outcome(('large', N, T, float(np.round(msd[0, 1], 6))))
+        except Exception as e:  # noqa: BLE001
+            res.violation(f'msd-raise-{type(e).__name__}', case, str(e))
+        res.sample({'large_trajectory': {'atoms': N, 'frames': T}})
+        return res
     if shard['kind'] == 'axis':
         T, axis = shard['T'], shard['axis']
         pre = [STEPS[i] for i in shard['prefix']]
@@ -169,6 +204,15 @@ def run_shard(shard) -> Result:
     return res
 
 
+def geom_tric():
+    from ..ref import geom
+
+    return geom.from_parameters(5, 6, 7, 70, 80, 100)
+
+
 def replay(case):
+    if 'large' in case:
+        r = run_shard({'kind': 'large', 'N': case['large'][0], 'T': case['large'][1]})
+        return [{'kind': v['kind'], 'detail': v['detail']} for v in r.viols]
     viols, _ = evaluate(np.array(case['steps']), np.array(case['M']), case['N'], case['dim'])
     return [{'kind': k, 'detail': d} for k, d in viols]
